@@ -17,7 +17,7 @@ type SchTy struct {
 	SRepr   byte // R: m map, t tuple, j stringjoin, p listpairs
 	Delim   string
 	Fields  []SchField
-	URepr   byte // U: k keyed, d kinded, p stringprefix
+	URepr   byte // U: k keyed, d kinded, p stringprefix (Delim: "" as the DSL compiler sets it, or a delimiter)
 	Members []SchMember
 	IntRepr bool // E
 	Enums   []SchEnum
@@ -91,6 +91,9 @@ func (t *SchTy) text(sb *strings.Builder) {
 	case 'U':
 		w("U" + string(t.URepr))
 		w(strconv.Itoa(len(t.Members)))
+		if t.URepr == 'p' {
+			w("x" + Hex(t.Delim))
+		}
 		for _, m := range t.Members {
 			w("x" + Hex(m.Name))
 			w("x" + Hex(m.Disc))
@@ -163,6 +166,10 @@ func schParse(toks []string) (*SchTy, []string, error) {
 		t := &SchTy{K: 'U', URepr: tk[1]}
 		n, _ := strconv.Atoi(rest[0])
 		rest = rest[1:]
+		if t.URepr == 'p' {
+			t.Delim = unx(rest[0])
+			rest = rest[1:]
+		}
 		for i := 0; i < n; i++ {
 			m := SchMember{Name: unx(rest[0]), Disc: unx(rest[1]), Kind: rest[2][0]}
 			var err error
@@ -318,6 +325,9 @@ func (t *SchTy) dsl(sb *strings.Builder, seen map[string]bool) {
 		for _, m := range t.Members {
 			m.T.dsl(sb, seen)
 		}
+		if t.URepr == 'p' && t.Delim != "" {
+			return // not expressible in the DSL: SchSpawnDelimited adds it through the schema API
+		}
 		fmt.Fprintf(sb, "type %s union {\n", t.Name)
 		for _, m := range t.Members {
 			switch t.URepr {
@@ -452,4 +462,24 @@ func (t *SchTy) Depth() int {
 		}
 	}
 	return d
+}
+
+// Delimited lists the stringprefix unions with a non-empty delimiter at or below t.
+func (t *SchTy) Delimited(out []*SchTy) []*SchTy {
+	switch t.K {
+	case 'L', 'M':
+		return t.Elem.Delimited(out)
+	case 'R':
+		for _, f := range t.Fields {
+			out = f.T.Delimited(out)
+		}
+	case 'U':
+		if t.URepr == 'p' && t.Delim != "" {
+			out = append(out, t)
+		}
+		for _, m := range t.Members {
+			out = m.T.Delimited(out)
+		}
+	}
+	return out
 }
